@@ -88,11 +88,21 @@ fn cell(idx: u64, rec: &mut Rec) {
     if fr != Some(Framing::Close) {
         stream.extend_from_slice(NEXT);
     }
-    let cfg = ReqCfg::new(method, "http://h.test/r");
-    let mut f = match fast_to_recv(&cfg) {
+    // body-carrying methods: every third cell reaches the receive state because the server answered
+    // an Expect: 100-continue request with this very response (the body is then never sent)
+    let refused_route = needs_body(method) && idx % 3 == 0;
+    let made = if refused_route {
+        super::c05::recv_flow_via(super::c05::Route::ExpectRefused, &head_bytes).ok_or_else(|| "the response was not recognised as a refusal while awaiting 100".to_string())
+    } else {
+        fast_to_recv(&ReqCfg::new(method, "http://h.test/r"))
+    };
+    let mut f = match made {
         Ok(f) => f,
         Err(e) => return rec.fail("C06/setup", format!("{}: {}", method, e)),
     };
+    if refused_route {
+        rec.cov("route/expect-refused");
+    }
     rec.call();
     let r = f.try_response(&stream);
     rec.ev(|| {
@@ -383,7 +393,7 @@ impl Property for P {
         [
             "rule=HEAD/*", "rule=CONNECT-2xx/*", "rule=1xx/*", "rule=204/*", "rule=304/*", "rule=chunked/next=RecvBody", "rule=chunked-over-length/next=RecvBody",
             "rule=length/next=RecvBody", "rule=length/next=Redirect", "rule=length/next=Cleanup", "rule=length-http10-ignores-chunked/*", "rule=close/next=RecvBody",
-            "rule=close-http10-ignores-chunked/*", "rule=redirect-without-framing/next=Redirect", "error/non-numeric-content-length", "error/non-numeric-content-length-on-bodyless", "error/non-numeric-content-length-with-chunked", "call/rule=length", "call/rule=HEAD", "partial-redirect/rule=*",
+            "rule=close-http10-ignores-chunked/*", "rule=redirect-without-framing/next=Redirect", "error/non-numeric-content-length", "error/non-numeric-content-length-on-bodyless", "error/non-numeric-content-length-with-chunked", "call/rule=length", "call/rule=HEAD", "partial-redirect/rule=*", "route/expect-refused",
         ]
         .iter()
         .map(|k| (k.to_string(), 50))
